@@ -421,7 +421,7 @@ func ruleChanCloseSend() check.Rule {
 					}
 					fn := innermostFunc(m, sc.Pkg, st)
 					c.Inc("channel_send_sites", 1)
-					key := fmt.Sprintf("%s/chan-%s/send@%s", sc, ch.Name(), model.CtxKey(placeCtx(sc, fn), placeSlot(sc, fn)))
+					key := fmt.Sprintf("%s/%s/send@%s", sc, chanLabel(sc, ch), model.CtxKey(placeCtx(sc, fn), placeSlot(sc, fn)))
 					conflict := ""
 					for _, fp := range sc.FnPlaces[fn] {
 						A := placeOfAccess(fp, st)
